@@ -1,7 +1,6 @@
 package main
 
 import (
-	"slices"
 	"fmt"
 	"sort"
 	"strings"
@@ -213,10 +212,10 @@ func ruleC04(c *Ctx, r *Report) {
 			if call.Parent() == cmdFn {
 				// the explain wrapper: the command walker applies itself / the rewriter to cmd[explain]
 				rv, ks, ok := p.memberKeys(cmdFn, call.Call.Args[0], call.Block())
-				okEx := ok && rv == ssa.Value(cmdFn.Params[0]) && len(ks) == 1 && slices.Contains(commandWrappers, ks[0])
+				okEx := ok && rv == ssa.Value(cmdFn.Params[0]) && len(ks) >= 1 && allIn(ks, commandWrappers)
 				wname := "?"
-				if len(ks) == 1 {
-					wname = ks[0]
+				if len(ks) >= 1 {
+					wname = strings.Join(ks, "|")
 				}
 				r.Check(okEx, "C04-R1", fmt.Sprintf("%s:applies(%s,cmd.%s)", cmdFn.Name(), wf.Name(), wname), c.InstrPos(call),
 					wf.Name()+" is applied to the command wrapped in cmd."+wname, wf.Name()+" is applied inside the command walker to something other than a wrapped command (explain, setQuerySettings, removeQuerySettings)")
